@@ -2,17 +2,17 @@ package data_test
 
 // C22: retention policies keep exactly the documented snapshots.
 //
-// Space.  Timestamp alphabet of 15 instants (all UTC): pairs straddling an
+// Space.  Timestamp alphabet of 18 instants (all UTC): pairs straddling an
 // hour, a day, a month and a year boundary, the two ISO weeks that split a
 // year (2024-12-29/30 and 2021-01-03/04), two equal instants, one instant
-// exactly one day before another one (boundary of --keep-within 1d; this 15th
+// exactly one day before another one (boundary of --keep-within 1d; this
 // instant is an addition to the DESIGN alphabet) and one instant in the
 // future (2099).  Snapshot lists = all subsets of the alphabet with <= 5
 // (quick) / <= 6 (thorough) elements, handed to ApplyPolicy in ascending and
 // in descending order (singles) resp. ascending order (pairs).  Tag sets from
 // {none,{a},{a,b}}: all assignments for lists of <= 3 snapshots, two fixed
 // patterns for longer lists.  Policies: the empty policy, every single option
-// (6 counters x {1,2,3,unlimited}, 6 durations x {1h,1d,1m,1y,2y3m}, keep-tag
+// (6 counters x {1,2,3,unlimited}, 6 durations x {1h,1d,1m,1m1h,1y,2y3m}, keep-tag
 // x {[a]; [a],[b]; [a,b]; ['']; [a,b],['']}) and every pair of options (quick:
 // on lists of <= 4).
 //
@@ -74,9 +74,12 @@ var verifC22Instants = []time.Time{
 	time.Date(2024, 3, 12, 0, 0, 0, 0, time.UTC),    // 9  exactly 1d before 11
 	time.Date(2024, 3, 12, 23, 59, 59, 0, time.UTC), // 10 day straddle (Tue/Wed)
 	time.Date(2024, 3, 13, 0, 0, 0, 0, time.UTC),    // 11
-	time.Date(2024, 12, 29, 8, 0, 0, 0, time.UTC),   // 12 Sun, ISO 2024-W52
-	time.Date(2024, 12, 30, 8, 0, 0, 0, time.UTC),   // 13 Mon, ISO 2025-W01
-	time.Date(2099, 6, 15, 12, 0, 0, 0, time.UTC),   // 14 future
+	time.Date(2024, 5, 1, 12, 0, 0, 0, time.UTC),    // 12 inside "1m1h before 14" only if the month is subtracted before the hour
+	time.Date(2024, 5, 31, 12, 0, 0, 0, time.UTC),   // 13
+	time.Date(2024, 6, 1, 0, 30, 0, 0, time.UTC),    // 14 half an hour into a month that follows a 31-day month that follows a 30-day month
+	time.Date(2024, 12, 29, 8, 0, 0, 0, time.UTC),   // 15 Sun, ISO 2024-W52
+	time.Date(2024, 12, 30, 8, 0, 0, 0, time.UTC),   // 16 Mon, ISO 2025-W01
+	time.Date(2099, 6, 15, 12, 0, 0, 0, time.UTC),   // 17 future
 }
 
 func verifC22Future(t time.Time) bool { return t.Year() >= 2090 }
@@ -102,7 +105,7 @@ var verifC22OptNames = [verifC22NOpts]string{"last", "hourly", "daily", "weekly"
 	"within", "within-hourly", "within-daily", "within-weekly", "within-monthly", "within-yearly", "tag"}
 
 var verifC22Counts = []int{0, 1, 2, 3, -1}
-var verifC22Durs = []data.Duration{{}, {Hours: 1}, {Days: 1}, {Months: 1}, {Years: 1}, {Years: 2, Months: 3}}
+var verifC22Durs = []data.Duration{{}, {Hours: 1}, {Days: 1}, {Months: 1}, {Months: 1, Hours: 1}, {Years: 1}, {Years: 2, Months: 3}}
 var verifC22TagVals = [][][]string{nil, {{"a"}}, {{"a"}, {"b"}}, {{"a", "b"}}, {{""}}, {{"a", "b"}, {""}}}
 
 // successor value indices ("raise a count / a duration / add a tag list")
